@@ -360,6 +360,14 @@ func outOfAmmoGlobal(c *Ctx) *ssa.Global {
 	// ... in awaitRun itself or in a helper it calls
 	for _, f := range FindFuncs(aw, 3, func(*ssa.Function) bool { return true }) {
 		EachInstr(f, func(in ssa.Instruction) {
+			// errors.Is(res.Err, sentinel)
+			if cl, isCall := in.(*ssa.Call); isCall && MatchCC(&cl.Call, sErrorsIsAll...) && len(cl.Call.Args) == 2 {
+				if u, ok := cl.Call.Args[1].(*ssa.UnOp); ok && u.Op == token.MUL {
+					if gl, ok := u.X.(*ssa.Global); ok && gl.Pkg == aw.Pkg && types.Identical(gl.Type().(*types.Pointer).Elem(), types.Universe.Lookup("error").Type()) {
+						g = gl
+					}
+				}
+			}
 			b, ok := in.(*ssa.BinOp)
 			if !ok || (b.Op != token.EQL && b.Op != token.NEQ) {
 				return
@@ -465,4 +473,22 @@ func c03Schedule(c *Ctx) {
 	}
 	s := cntField("newSchedule")
 	c.Check(s.Is(1, 1), "O3.6", nk+":one-schedule-per-instance", ni.Pos(), fmt.Sprintf("deps.newSchedule() calls on paths returning an instance = %v (want [1,1])", s))
+}
+
+var sErrorsIsAll = []Spec{{"errors", "", "Is"}, {"github.com/pkg/errors", "", "Is"}, {"golang.org/x/xerrors", "", "Is"}}
+
+// sentinelTest: v tests a value against the package-level sentinel g - `x == g`, `x != g` or errors.Is(x, g);
+// whenTrue says whether a true result means "is the sentinel".
+func sentinelTest(v ssa.Value, g *ssa.Global) (isTest, whenTrue bool) {
+	switch x := v.(type) {
+	case *ssa.BinOp:
+		if (x.Op == token.EQL || x.Op == token.NEQ) && (IsGlobalLoad(g)(x.X) || IsGlobalLoad(g)(x.Y)) {
+			return true, x.Op == token.EQL
+		}
+	case *ssa.Call:
+		if MatchCC(&x.Call, sErrorsIsAll...) && len(x.Call.Args) == 2 && IsGlobalLoad(g)(x.Call.Args[1]) {
+			return true, true
+		}
+	}
+	return false, false
 }
